@@ -149,7 +149,15 @@ pub fn c06(v: &View) -> Vec<Violation> {
         for (idx, role, side) in sides(v) {
             if let Some((t, kind, code, err)) = v.closed_event(side) {
                 let benign = matches!(kind, CloseKind::Closed | CloseKind::Application);
-                if !benign {
+                // the peer's application had already closed the connection: a replayed copy that
+                // overtook its original from another address looks like a migration (RFC 9000
+                // 9.3.3) and can send the peer's CONNECTION_CLOSE to the wrong address; this side
+                // then learns about the end through an idle timeout or a stateless reset
+                let peer_closed_first = v
+                    .side(idx, role.peer())
+                    .and_then(|p| v.closed_event(p))
+                    .map_or(false, |(tp, kp, _, _)| tp < t && matches!(kp, CloseKind::Closed | CloseKind::Application));
+                if !benign && !(peer_closed_first && matches!(kind, CloseKind::StatelessReset | CloseKind::IdleTimerExpired)) {
                     out.push(viol(
                         "C06",
                         "c06.connection_killed",
